@@ -108,3 +108,46 @@ func ZZ_C18_S2b_delivered_message_is_stable() {
 	}
 	zzReach("S2b.done")
 }
+
+// S2c: "delivered whole or not at all" when the consumer falls behind. The inbox (capacity 1 here)
+// is full when m2 completes, so m2 is dropped; after the consumer drains the inbox the next message
+// m3 of the same peer on the same topic must arrive whole and alone - no byte of the dropped m2 may
+// be glued in front of it - and the assembler is empty after every completed message.
+//
+//zz:harness unwind=40 panic=violation:S2.nopanic
+//zz:reach S2c.done
+func ZZ_C18_S2c_dropped_message_leaves_no_residue() {
+	n := zzParam("msglen", 4)
+	m1, m2, m3 := zzMsg("m1", n), zzMsg("m2", n), zzMsg("m3", n)
+	lim := zzConcrete(zzInt("lim"), 1, zzParam("maxlim", 3))
+	s := &Stream{topic: lib.Topic_TX, inbox: make(chan *lib.MessageAndMetadata, 1), logger: zzLogP{}}
+	peer := &lib.PeerInfo{}
+	feed := func(m []byte) {
+		chunks := split(m, lim)
+		for i, c := range chunks {
+			_, err := s.handlePacket(peer, &Packet{StreamId: lib.Topic_TX, Eof: i == len(chunks)-1, Bytes: c}, nil)
+			zzAssert("S2c.no-error-under-limit", err == nil)
+		}
+		zzAssert("S2c.assembler-empty-after-message", len(s.msgAssembler) == 0)
+	}
+	feed(m1)
+	feed(m2) // inbox full: dropped
+	zzAssert("S2c.full-inbox-keeps-oldest", len(s.inbox) == 1)
+	got1 := <-s.inbox
+	zzAssert("S2c.first-whole", len(got1.Message) == len(m1))
+	for j := range m1 {
+		if j < len(got1.Message) {
+			zzAssert("S2c.first-bytes", got1.Message[j] == m1[j])
+		}
+	}
+	feed(m3)
+	zzAssert("S2c.next-delivered", len(s.inbox) == 1)
+	got3 := <-s.inbox
+	zzAssert("S2c.next-whole-and-alone", len(got3.Message) == len(m3))
+	for j := range m3 {
+		if j < len(got3.Message) {
+			zzAssert("S2c.next-bytes", got3.Message[j] == m3[j])
+		}
+	}
+	zzReach("S2c.done")
+}
